@@ -45,7 +45,7 @@ def r_C01visitors(root):
     CTORS = exprs.ctor_env()
     def call(name, v, node, children):
         f, ps = method(name)
-        env = dict(consts); env.update(exprs.type_env()); env.update(CTORS)        # one set of class stand-ins for the whole run: Not is the same value in every call (it may be a dictionary key)
+        env = dict(consts); env.update(exprs.type_env()); env.update(CTORS); env.setdefault("_", exprs.type_of("RegExMatch"))        # one set of class stand-ins for the whole run: Not is the same value in every call (it may be a dictionary key)
         env.update({"__functions__": fns, "__classes__": exprs.classes_env(), "__module__": t, ps[0]: v, ps[1]: node, ps[2]: children,
                     "TextXSyntaxError": errs("TextXSyntaxError"), "TextXSemanticError": errs("TextXSemanticError"),
                     "ClassCrossRef": pyeval.PyFn(lambda cls_name=None, position=0: HS({".kind": "ClassCrossRef", ".cls_name": cls_name, ".position": position}))})
@@ -218,6 +218,25 @@ def r_C01visitors(root):
             r2 = call("visit_assignment", v, node, ["r", "=", arhs(v, ("obj_ref", link2))])
             got = (cls["._tx_attrs"]["r"].get(".cls") or {}).get(".cls_name"); want = "Target" if second == "Target" else "OBJECT"
             rep("C01.i", "visit_assignment", "r=[Target|FQN] ... r=[%s|FQN]" % second, r2[0] == "ret" and got == want, "a reference attribute assigned twice, to [Target|FQN] and to [%s|FQN], gets the target type %r; documented %r (the same target keeps its type, different targets give OBJECT - the match rule FQN is not the type)" % (second, got, want), props_=("C01", "C07", "C10", "C25"))
+    # ---------------------------------------------------------------- link references  [Class|MatchRule|rrel]
+    rrel_s = HS({".kind": "rrel tree"})
+    MODCTORS = {"_": exprs.type_of("RegExMatch"), "RegExMatch": exprs.type_of("RegExMatch"), "StrMatch": exprs.type_of("StrMatch"), "OrderedChoice": exprs.type_of("OrderedChoice"), "Sequence": exprs.type_of("Sequence")}       # for the module-level tables of lang.py (BASE_TYPE_RULES ...)
+    RX = pyeval.PyFn(lambda rule_name, cls=None, position=0, scope_provider=None, *a_, **k_: HS({".kind": "RuleCrossRef", ".rule_name": rule_name, ".cls": cls, ".position": position, ".scope_provider": scope_provider, ".suppress": False}))
+    for kids_, want_ in ((["Target"], ("ID", "Target", None)), (["Target", "|", "FQN"], ("FQN", "Target", None)), (["Target", "|", "FQN", rrel_s], ("FQN", "Target", rrel_s))):
+        v, _c = new_visitor()
+        f_, ps_ = method("visit_obj_ref")
+        env_ = dict(consts); env_.update({"__functions__": fns, "__classes__": exprs.classes_env(), "__module__": t, ps_[0]: v, ps_[1]: node, ps_[2]: list(kids_), "RuleCrossRef": RX, "TextXSemanticError": errs("TextXSemanticError")})
+        env_.update(MODCTORS)
+        try: r = ("ret", pyeval.run_block(f_.body, env_))
+        except pyeval.Raised as r_: r = ("raise", r_.cls)
+        except pyeval.Unsupported as u_: raise AnalysisError("visit_obj_ref: outside the evaluated subset: %s" % u_)
+        x_ = r[1][1] if r[0] == "ret" and isinstance(r[1], tuple) and len(r[1]) == 2 else None
+        okl = r[0] == "ret" and isinstance(r[1], tuple) and r[1][0] == "obj_ref" and isinstance(x_, dict) and (x_.get(".rule_name"), x_.get(".cls"), x_.get(".scope_provider")) == want_[:3] and x_.get(".scope_provider") is want_[2] and x_.get(".position") == node[".position"]
+        rep("C32.h", "visit_obj_ref", "[%s]" % "".join(k_ if isinstance(k_, str) else "<rrel>" for k_ in kids_), okl, "the link  [%s]  becomes %s; documented: a reference to class %s matched by rule %s with %s, at the link's position" % ("".join(k_ if isinstance(k_, str) else "<rrel>" for k_ in kids_), (("a reference to class %r matched by %r with %s" % (x_.get(".cls"), x_.get(".rule_name"), "the RREL tree" if x_.get(".scope_provider") is rrel_s else x_.get(".scope_provider"))) if isinstance(x_, dict) else desc(r)), want_[1], want_[0], "the RREL tree written in the link" if want_[2] is not None else "no RREL tree"), props_=("C32", "C11", "C01"))
+    for prim in ("INT", "STRING", "ID"):
+        v, _c = new_visitor()
+        r = call("visit_obj_ref", v, node, [prim])
+        rep("C23.b", "visit_obj_ref", "[%s]" % prim, r == ("raise", "TextXSemanticError"), "a link to the primitive type  [%s]  %s; documented: TextXSemanticError 'Primitive type instances can not be referenced' with the position of the link" % (prim, desc(r)), props_=("C23", "C32"))
     # ---------------------------------------------------------------- rule names: classes are created / user classes bound
     class _NodeS(HS):
         def __str__(s_): return s_[".value"]
